@@ -1,9 +1,5 @@
 SPECIFICATION TSpec
 CONSTANTS MaxChunk = 22
 CONSTRAINT Progress
-INVARIANTS TxExactlyOnce
-           TxOneToggle
-           RxExactlyOnce
-           RxOneToggle
 POSTCONDITION Post
 CHECK_DEADLOCK FALSE
